@@ -92,6 +92,17 @@ func (t *SourceTask) Do(ctx context.Context, b *Batch) error {
 
 	t.metrics.Observe(recs, start)
 
+	// Every record must carry a non-empty position: Batch uses a nil position
+	// as the marker of a split piece, and an empty position can never be acked
+	// (see validateAckPositions). Refuse the batch before anything is processed.
+	positions := make([]opencdc.Position, len(recs))
+	for i, r := range recs {
+		positions[i] = r.Position
+	}
+	if err := validateAckPositions(positions); err != nil {
+		return err
+	}
+
 	// Overwrite the batch with the new records.
 	*b = *NewBatch(recs)
 	return nil
